@@ -793,6 +793,52 @@ Fixpoint tr_genRequestID_loop (fuel : nat) (rd : Z) {struct fuel} : ctl Z (Z * Z
     (fun rd : Z => tr_genRequestID_loop fuel rd)
   end.
 
+(* tars/selector/roundrobin/round_robin.go: func RoundRobin.Select *)
+Definition tr_rr_Select (r_endpoints : (list go_endpoint_Endpoint)) (r_lastPosition : Z) (r_staticWeightRouterCache : (list Z)) (r_lastStaticWeightPosition : Z) : ctl unit (go_endpoint_Endpoint * bool * Z * Z) :=
+  let ep : go_endpoint_Endpoint := (Build_go_endpoint_Endpoint (@nil N) 0 0 0 0 0 0 0 0 (@nil N) (@nil N) (@nil N) (@nil N) (@nil N)) in
+    if ((go_len r_endpoints) =? 0)
+    then Return (ep, true, r_lastPosition, r_lastStaticWeightPosition)
+    else if (negb ((go_len r_staticWeightRouterCache) =? 0))
+    then let r_lastStaticWeightPosition := (wrapU 64 (r_lastStaticWeightPosition + 1)) in let idx_1 := r_lastStaticWeightPosition in
+      if (andb (andb (negb ((wrapU 64 (go_len r_staticWeightRouterCache)) =? 0)) (go_in_range r_staticWeightRouterCache (Z.rem idx_1 (wrapU 64 (go_len r_staticWeightRouterCache))))) (go_in_range r_endpoints (go_nth r_staticWeightRouterCache (Z.rem idx_1 (wrapU 64 (go_len r_staticWeightRouterCache))) 0))) then (Return ((go_nth r_endpoints (go_nth r_staticWeightRouterCache (Z.rem idx_1 (wrapU 64 (go_len r_staticWeightRouterCache))) 0) (Build_go_endpoint_Endpoint (@nil N) 0 0 0 0 0 0 0 0 (@nil N) (@nil N) (@nil N) (@nil N) (@nil N))), false, r_lastPosition, r_lastStaticWeightPosition)) else Panic
+    else let r_lastPosition := (wrapU 64 (r_lastPosition + 1)) in let idx := r_lastPosition in
+    if (andb (negb ((wrapU 64 (go_len r_endpoints)) =? 0)) (go_in_range r_endpoints (Z.rem idx (wrapU 64 (go_len r_endpoints))))) then (let ep := (go_nth r_endpoints (Z.rem idx (wrapU 64 (go_len r_endpoints))) (Build_go_endpoint_Endpoint (@nil N) 0 0 0 0 0 0 0 0 (@nil N) (@nil N) (@nil N) (@nil N) (@nil N))) in
+    Return (ep, false, r_lastPosition, r_lastStaticWeightPosition)) else Panic.
+
+(* tars/selector/modhash/modhash.go: func ModHash.Select *)
+Definition tr_mh_Select (m_endpoints : (list go_endpoint_Endpoint)) (m_staticWeightRouterCache : (list Z)) (hashCode_ : Z) : ctl unit (go_endpoint_Endpoint * bool) :=
+  let ep : go_endpoint_Endpoint := (Build_go_endpoint_Endpoint (@nil N) 0 0 0 0 0 0 0 0 (@nil N) (@nil N) (@nil N) (@nil N) (@nil N)) in
+    if ((go_len m_endpoints) =? 0)
+    then Return (ep, true)
+    else let hashCode := hashCode_ in
+    if (negb ((go_len m_staticWeightRouterCache) =? 0))
+    then if (andb (negb ((wrapU 32 (go_len m_staticWeightRouterCache)) =? 0)) (go_in_range m_staticWeightRouterCache (Z.rem hashCode (wrapU 32 (go_len m_staticWeightRouterCache))))) then (let idx := (go_nth m_staticWeightRouterCache (Z.rem hashCode (wrapU 32 (go_len m_staticWeightRouterCache))) 0) in
+      if (go_in_range m_endpoints idx) then (Return ((go_nth m_endpoints idx (Build_go_endpoint_Endpoint (@nil N) 0 0 0 0 0 0 0 0 (@nil N) (@nil N) (@nil N) (@nil N) (@nil N))), false)) else Panic) else Panic
+    else if (andb (negb ((wrapU 32 (go_len m_endpoints)) =? 0)) (go_in_range m_endpoints (Z.rem hashCode (wrapU 32 (go_len m_endpoints))))) then (Return ((go_nth m_endpoints (Z.rem hashCode (wrapU 32 (go_len m_endpoints))) (Build_go_endpoint_Endpoint (@nil N) 0 0 0 0 0 0 0 0 (@nil N) (@nil N) (@nil N) (@nil N) (@nil N))), false)) else Panic.
+
+(* tars/selector/random/random.go: func Random.Select *)
+Definition tr_rnd_Select (r_endpoints : (list go_endpoint_Endpoint)) (r_staticWeightRouterCache : (list Z)) (draw_eps : Z) (draw_cache : Z) : ctl unit (go_endpoint_Endpoint * bool) :=
+  let ep : go_endpoint_Endpoint := (Build_go_endpoint_Endpoint (@nil N) 0 0 0 0 0 0 0 0 (@nil N) (@nil N) (@nil N) (@nil N) (@nil N)) in
+    if ((go_len r_endpoints) =? 0)
+    then Return (ep, true)
+    else if (negb ((go_len r_staticWeightRouterCache) =? 0))
+    then if (go_in_range r_staticWeightRouterCache draw_cache) then (let idx := (go_nth r_staticWeightRouterCache draw_cache 0) in
+      if (go_in_range r_endpoints idx) then (Return ((go_nth r_endpoints idx (Build_go_endpoint_Endpoint (@nil N) 0 0 0 0 0 0 0 0 (@nil N) (@nil N) (@nil N) (@nil N) (@nil N))), false)) else Panic) else Panic
+    else if (go_in_range r_endpoints draw_eps) then (Return ((go_nth r_endpoints draw_eps (Build_go_endpoint_Endpoint (@nil N) 0 0 0 0 0 0 0 0 (@nil N) (@nil N) (@nil N) (@nil N) (@nil N))), false)) else Panic.
+
+(* tars/selector/consistenthash/consistenthash_new.go: func ConsistentHash.FindInt32 *)
+Definition tr_ch_FindInt32 (key : Z) (c_hashRing : (list (Z * go_endpoint_Endpoint))) (c_sortedKeys : (list Z)) : ctl unit (go_endpoint_Endpoint * bool) :=
+  let point : go_endpoint_Endpoint := (Build_go_endpoint_Endpoint (@nil N) 0 0 0 0 0 0 0 0 (@nil N) (@nil N) (@nil N) (@nil N) (@nil N)) in
+    if ((go_len c_sortedKeys) =? 0)
+    then Return (point, false)
+    else if (go_search_ok (go_len c_sortedKeys) (fun x : Z => if (go_in_range c_sortedKeys x) then Some (key <=? (go_nth c_sortedKeys x 0)) else None)) then (let index := (go_search (go_len c_sortedKeys) (fun x : Z => if (go_in_range c_sortedKeys x) then Some (key <=? (go_nth c_sortedKeys x 0)) else None)) in
+    bindc (if ((go_len c_sortedKeys) <=? index)
+      then let index := 0 in
+        Next index
+      else Next index)
+    (fun index : Z =>
+    if (go_in_range c_sortedKeys index) then (Return ((go_map_get c_hashRing (go_nth c_sortedKeys index 0) (Build_go_endpoint_Endpoint (@nil N) 0 0 0 0 0 0 0 0 (@nil N) (@nil N) (@nil N) (@nil N) (@nil N))), true)) else Panic)) else Panic.
+
 (* struct github.com/TarsCloud/TarsGo/tars/protocol/res/endpointf.EndpointF *)
 Record go_endpointf_EndpointF := { go_endpointf_EndpointF_Host : (list N);
   go_endpointf_EndpointF_Port : Z;
